@@ -32,6 +32,7 @@ def main():
     ap.add_argument("--replay")
     ap.add_argument("--only", help="substring filter on function names (debugging)")
     ap.add_argument("--no-bounded", action="store_true")
+    ap.add_argument("--write-baseline", action="store_true", help="record which obligation keys are discharged on this (unchanged) tree")
     a = ap.parse_args()
     seed = int(os.environ.get("VERIF_SEED", "0") or 0)
     pid = a.prop
@@ -44,6 +45,7 @@ def main():
     known = [k for k in load_known() if k["property"] == pid]
     open_known = [k for k in known if k.get("status") == "open"]
     out = Run(pid, cfg, a.tier, seed, open_known, a.only)
+    out.write_baseline = a.write_baseline
     try:
         out.deductive()
         if not a.no_bounded: out.bounded()
@@ -64,6 +66,7 @@ class Run:
                    "covers": 0, "covers_sat": 0, "canaries": 0, "canaries_refuted": 0, "assumed_contracts": [],
                    "assumptions": set(), "bounded": [], "inlined": [], "lemmas": 0}
         self.replay_dir = os.path.join(HERE, "replays", pid)
+        self.canary_failed = []
 
     # ---------------------------------------------------------------- deductive part
     def deductive(self):
@@ -110,8 +113,19 @@ class Run:
         for cq, fobs in canary_obs.items():
             self.ev["canaries"] += 1
             if any(bymap[id(o)].status == "sat" and o.expect == "unsat" for o in fobs): self.ev["canaries_refuted"] += 1
-            else: self.fatal.append("canary %s was NOT refuted: the verifier may be vacuous" % cq)
+            else: self.canary_failed.append(cq)
         refuted = []
+        base_path = os.path.join(HERE, "baseline", "%s.json" % self.pid)
+        baseline = json.load(open(base_path))["discharged_keys"] if os.path.exists(base_path) else {}
+        keyres = {}
+        for o in obs:
+            if o.expect == "unsat": keyres.setdefault(stable_key(o), []).append(bymap[id(o)].status)
+        if getattr(self, "write_baseline", False):
+            os.makedirs(os.path.join(HERE, "baseline"), exist_ok=True)
+            with open(base_path, "w") as f:
+                json.dump({"property": self.pid, "comment": "obligation keys fully discharged on the unchanged tree; a key listed here that a solver later gives up on is reported as a regression",
+                           "discharged_keys": {k: len(v) for k, v in sorted(keyres.items()) if all(x == "unsat" for x in v)}}, f, indent=1)
+        regress = {}
         for o in obs:
             r = bymap[id(o)]
             self.ev["solver_s"] += r.secs
@@ -127,7 +141,16 @@ class Run:
                 if len(self.ev["samples"]) < 6 and (self.ev["obligations"] % 7 == 1 or len(obs) < 20):
                     self.ev["samples"].append({"obligation": o.name, "result": "unsat", "solver": r.solver, "seconds": round(r.secs, 3)})
             elif r.status == "sat": refuted.append(r)
-            else: self.undecided.append("obligation %s: %s" % (o.name, r.raw[:200]))
+            elif r.status == "gaveup" and stable_key(o) in baseline:
+                regress.setdefault(stable_key(o), []).append(r)
+            else: self.undecided.append("obligation %s: %s %s" % (o.name, r.status, r.raw[:200]))
+        for k, rs in regress.items():
+            r = rs[0]
+            info = {"verdict": "no-native-replay", "detail": "the solvers answer 'unknown' (no proof, no model) for an obligation that is discharged on the unchanged tree",
+                    "inputs": None, "native": None}
+            path = self.write_replay(r, info)
+            self.violations.append({"what": "%s: obligation %s was discharged on the unchanged tree and is not provable any more (%d path%s; solver: unknown)"
+                                    % (r.ob.func, r.ob.kind, len(rs), "s" if len(rs) > 1 else ""), "replay": path, "failing_input_found": False, "detail": ""})
         self.ev["assumptions"] |= ex.assumptions
         self.ev["inlined"] = sorted(ex.inlined)
         self.handle_refuted(ex, refuted, timeout)
@@ -227,6 +250,9 @@ class Run:
         for v in self.violations:
             print("VIOLATION property=%s replay=%s%s" % (self.pid, v["replay"], "" if v["failing_input_found"] else " no-failing-input-found"))
             print("  " + v["what"] + ((" -- " + v["detail"]) if v["detail"] else ""))
+        if self.canary_failed and not self.violations:
+            # a canary is a deliberately wrong contract; if the real contract of the same code is violated the canary may hold
+            for cq in self.canary_failed: self.fatal.append("canary %s was NOT refuted: the verifier may be vacuous" % cq)
         for u in self.undecided: print("UNDECIDED: " + u)
         for f in self.fatal: print("CHECKER-ERROR: " + f)
         all_discharged = ev["obligations"] > 0 and ev["obligations"] == ev["discharged"] + 0
@@ -271,6 +297,10 @@ class Run:
         if ev["obligations"] < floor and not self.only:
             print("CHECKER-ERROR: only %d obligations generated, floor is %d" % (ev["obligations"], floor)); return 3
         return 0
+
+def stable_key(o):
+    """obligation identity that survives harmless edits: function + kind + clause text (no line numbers, no counters)"""
+    return "%s#%s" % (o.func, o.kind)
 
 def lemma_obligations(ex, l):
     st = RP.State(); st.ctx = ("shexer", None, "lemma:" + l.name)
